@@ -1,5 +1,5 @@
 #!/usr/bin/env python3
-"""tools/seedconfirm.py <ID> <variant-dir> [--no-suite] [--tier quick|thorough] [--keep]
+"""tools/seedconfirm.py <ID> <variant-dir> [--no-suite] [--tier quick|thorough] [--keep | --update-check]
 
 Confirm a seeded change handed back by a sub-agent, in a scratch worktree outside /repo and /verif:
   1. demo.py exits 0 on the unchanged tree,
@@ -66,6 +66,17 @@ def main():
         res['check_lines'] = [l[:260] for l in outc.splitlines() if l.startswith(('VIOLATION', 'KNOWN', 'RESULT', 'HARNESS', 'INCONCLUSIVE'))][:8]
         res['detected'] = (rcc == 1 and any(l.startswith('VIOLATION') for l in res['check_lines']))
         print(json.dumps(res, indent=1))
+        if '--update-check' in args:
+            # a seed kept earlier (demo and suite confirmed then): only refresh what the check says now
+            dst = os.path.join(VERIF, 'seeded', '%s-%s' % (pid, variant))
+            meta = json.load(open(os.path.join(dst, 'meta.json')))
+            first = meta.get('check')
+            if first and not first.get('detected') and 'first_run' not in meta:
+                meta['first_run'] = dict(first, note='before the check was strengthened')
+            meta['check'] = dict(cmd=res['check_cmd'], exit=rcc, detected=res['detected'], lines=res['check_lines'])
+            json.dump(meta, open(os.path.join(dst, 'meta.json'), 'w'), indent=1)
+            print('updated', dst)
+            return 0
         ok = rc0 == 0 and rc1 != 0 and (not suite or res.get('suite_exit') == 0)
         if keep and ok:
             dst = os.path.join(VERIF, 'seeded', '%s-%s' % (pid, variant))
